@@ -38,12 +38,30 @@ type Config struct {
 	CLI     []string `json:"cli,omitempty"`    // names of catalogue commands in the alphabet
 	// UCLI: catalogue commands that are also run under another, unprivileged uid (event "ucli:<name>")
 	// while the holders run as the coordinator's uid (root); ignored when the run cannot change uid
-	UCLI  []string `json:"ucli,omitempty"`
+	UCLI []string `json:"ucli,omitempty"`
+	// FCLI: catalogue commands whose flag variants are in the alphabet (event "fcli:<name>+<flag>[+<flag>]":
+	// the catalogue's argument list preceded by each single local flag and each unordered pair of local
+	// flags, as discovered from the binary under test)
+	FCLI  []string `json:"fcli,omitempty"`
 	Depth int      `json:"depth"` // 0 = until no event is enabled
 }
 
 // Env is what an execution needs from the check run.
+// FlagInfo is one local flag of a command as printed by `git-bug <command> --help`.
+type FlagInfo struct {
+	Name  string `json:"name"`
+	Short string `json:"short,omitempty"`
+	Type  string `json:"type,omitempty"` // empty: takes no value
+	Value string `json:"value,omitempty"`
+}
+
+// flagLimit: a flag variant still running after this long is killed, counted and not judged (a harness
+// limit, never an observation about the lock).
+const flagLimit = 30 * time.Second
+
 type Env struct {
+	// Flags: local flags of every catalogue command, discovered from the binary under test
+	Flags map[string][]FlagInfo
 	// OtherUID: uid/gid for "ucli" events (0: not available, the events are left out)
 	OtherUID int
 	Self     string // harness binary
@@ -616,6 +634,9 @@ func (x *execution) enabled() []string {
 			out = append(out, "ucli:"+c)
 		}
 	}
+	for _, c := range x.cfg.FCLI {
+		out = append(out, flagVariants(c, x.env.Flags[c])...)
+	}
 	for _, c := range x.cfg.CLI {
 		out = append(out, "cli:"+c)
 	}
@@ -721,6 +742,8 @@ func actorKind(event string) string {
 		return "command-" + arg
 	case "ucli":
 		return "command-" + arg + "-as-other-uid"
+	case "fcli":
+		return "command-" + flagLabel(arg)
 	case "step":
 		return "step-of-other-open"
 	}
@@ -760,9 +783,12 @@ func (x *execution) apply(event string, prefix bool) {
 	case "exit":
 		x.evExit(event, x.holder(arg))
 	case "cli":
-		x.evCLI(event, arg, false)
+		x.evCLI(event, arg, false, nil)
 	case "ucli":
-		x.evCLI(event, arg, true)
+		x.evCLI(event, arg, true, nil)
+	case "fcli":
+		parts := strings.Split(arg, "+")
+		x.evCLI(event, parts[0], false, parts[1:])
 	case "begin":
 		x.evStep(event, x.holder(arg), "open-step")
 	case "step":
@@ -1014,12 +1040,75 @@ func (x *execution) openToAll() {
 	}
 }
 
-func (x *execution) evCLI(event, name string, otherUID bool) {
+// flagVariants lists the events "fcli:<name>+<flag>" and "fcli:<name>+<flag>+<flag>" of a command. Flags
+// the catalogue's own argument list already sets are left out.
+func flagVariants(name string, flags []FlagInfo) []string {
+	set := map[string]bool{}
+	for _, a := range cliCatalogue[name] {
+		set[a] = true
+	}
+	var fs []string
+	for _, f := range flags {
+		if set["--"+f.Name] || (f.Short != "" && set["-"+f.Short]) {
+			continue
+		}
+		fs = append(fs, f.Name)
+	}
+	sort.Strings(fs)
+	var out []string
+	for _, f := range fs {
+		out = append(out, "fcli:"+name+"+"+f)
+	}
+	for i := range fs {
+		for j := i + 1; j < len(fs); j++ {
+			out = append(out, "fcli:"+name+"+"+fs[i]+"+"+fs[j])
+		}
+	}
+	return out
+}
+
+// flagLabel renders "<name>+<f1>+<f2>" as "<name>-with-flags(<f1>,<f2>)" (names only, never values).
+func flagLabel(arg string) string {
+	parts := strings.Split(arg, "+")
+	fs := append([]string{}, parts[1:]...)
+	sort.Strings(fs)
+	return parts[0] + "-with-flags(" + strings.Join(fs, ",") + ")"
+}
+
+func (x *execution) evCLI(event, name string, otherUID bool, flags []string) {
 	args, ok := cliCatalogue[name]
 	if !ok {
 		panic(herr("unknown command %q", name))
 	}
 	label := name
+	limit := time.Duration(0)
+	if len(flags) > 0 {
+		// the extra flags go first: where the catalogue sets the same flag, its value stays in force
+		var extra []string
+		for _, fn := range flags {
+			var fi *FlagInfo
+			for i := range x.env.Flags[name] {
+				if x.env.Flags[name][i].Name == fn {
+					fi = &x.env.Flags[name][i]
+				}
+			}
+			if fi == nil {
+				panic(herr("command %s of the binary under test has no flag --%s", name, fn))
+			}
+			if fi.Type == "" {
+				extra = append(extra, "--"+fn)
+			} else {
+				extra = append(extra, "--"+fn+"="+fi.Value)
+			}
+		}
+		// flags follow the command path, before the catalogue's own arguments
+		n := len(cmdPath(args))
+		full := append([]string{}, args[:n]...)
+		full = append(full, extra...)
+		args = append(full, args[n:]...)
+		label = flagLabel(name + "+" + strings.Join(flags, "+"))
+		limit = flagLimit
+	}
 	if otherUID {
 		if x.env.OtherUID == 0 {
 			panic(herr("event %q needs a second uid", event))
@@ -1048,8 +1137,14 @@ func (x *execution) evCLI(event, name string, otherUID bool) {
 	if otherUID {
 		uid = x.env.OtherUID
 	}
-	code, stdout, stderr, pid, aborted := x.runCLI(args, watch, uid)
+	code, stdout, stderr, pid, aborted, timedOut := x.runCLI(args, watch, uid, limit)
 	x.deadPids[pid] = "cli"
+	if timedOut {
+		// killed by the harness: whatever it left behind was not left by a command that exited by itself
+		x.obs(event, "killed-at-timeout", "")
+		x.res.Broken = true
+		return
+	}
 	if aborted {
 		x.obs(event, "changed the lock file of the live holder while running (command killed) lock-after="+lockKind(x.lockClass()), "")
 		x.report("live-lock-clobbered", "by-command-"+label+"|"+x.ctx(),
@@ -1140,7 +1235,19 @@ func firstLine(s string) string {
 	return s
 }
 
-func (x *execution) runCLI(args []string, watch func() bool, uid int) (code int, stdout, stderr string, pid int, aborted bool) {
+// cmdPath is the leading part of an argument list that names the command.
+func cmdPath(args []string) []string {
+	var path []string
+	for _, a := range args {
+		if strings.HasPrefix(a, "-") || a == "0123abc" || a == "nosuchremote" || a == "nosuchbridge" || a == "sometoken" || a == "alabel" {
+			break
+		}
+		path = append(path, a)
+	}
+	return path
+}
+
+func (x *execution) runCLI(args []string, watch func() bool, uid int, softLimit time.Duration) (code int, stdout, stderr string, pid int, aborted, timedOut bool) {
 	cmd := exec.Command(x.env.GitBug, args...)
 	cmd.Dir = x.repo
 	cmd.Env = x.childEnv
@@ -1164,6 +1271,10 @@ func (x *execution) runCLI(args []string, watch func() bool, uid int) (code int,
 	done := make(chan error, 1)
 	go func() { done <- cmd.Wait() }()
 	limit := time.After(waitLimit)
+	var soft <-chan time.Time
+	if softLimit > 0 {
+		soft = time.After(softLimit)
+	}
 	tick := time.NewTicker(5 * time.Millisecond)
 	defer tick.Stop()
 wait:
@@ -1176,8 +1287,13 @@ wait:
 				_ = syscall.Kill(-pid, syscall.SIGKILL)
 				<-done
 				unregister(pid)
-				return -1, so.String(), se.String(), pid, true
+				return -1, so.String(), se.String(), pid, true, false
 			}
+		case <-soft:
+			_ = syscall.Kill(-pid, syscall.SIGKILL)
+			<-done
+			unregister(pid)
+			return -1, so.String(), se.String(), pid, false, true
 		case <-limit:
 			_ = syscall.Kill(-pid, syscall.SIGKILL)
 			<-done
@@ -1198,7 +1314,7 @@ wait:
 			code = 128
 		}
 	}
-	return code, so.String(), se.String(), pid, false
+	return code, so.String(), se.String(), pid, false, false
 }
 
 // ---- inside of open --------------------------------------------------------------------------------
